@@ -6,7 +6,7 @@ FS = ('FS layer: RollingWriter::{write,persist,forward,num_bytes_remaining_in_bl
       'Directory::open is VERIFIED over a ghost model of the directory listing (R29 stand-in for ReadDir; assumed std contracts of DirEntry::{file_type,file_name}, FileType::is_file, OsStr::to_str, Path::to_path_buf): it tracks exactly the regular files with a UTF-8 name of the WAL form, reports every listing error, and creates file 0 only if there is none; still trusted (contracts assumed): Directory::{open_file,sync_directory}, create_file, the read_exact stand-ins (R20), FileTracker::from_file_numbers, FileNumber::can_be_deleted; named assumptions A-file-number-bound (file numbers below 2^63), A-file-count (fewer than 2^37 tracked files: RollingWriter::size, verified, multiplies without overflow), A-file-size (a WAL file holds at most 4096 full blocks) and A-stream-bound, each an explicit `assume` counted by the mechanical scan')
 
 LEMMAS = {
-    'C01': ['vspec::lemma_parse_ser_item', 'vspec::lemma_parse_ser_items', 'vspec::lemma_parse_ser_entry', 'vspec::lemma_replay_items_is_append_all', 'vspec::lemma_ser_items_empty', 'vspec::lemma_replay_history',
+    'C01': ['vspec::lemma_parse_ser_item', 'vspec::lemma_parse_ser_items', 'vspec::lemma_parse_ser_entry', 'vspec::lemma_replay_items_is_append_all', 'vspec::lemma_ser_items_empty', 'vspec::lemma_replay_history', 'vspec::lemma_rec_step_buf_irrelevant', 'vspec::lemma_replay_log_buf_irrelevant', 'vspec::replay_log',
             'vroundtrip::lemma_roundtrip_all'],
     'C05': ['vspec::lemma_split_filter', 'mem::queue::MemQueue::lemma_truncate_mid'],
     'C07': ['vspec::lemma_frame_enc_len', 'vspec::lemma_full_frame_ends_block', 'vspec::enc', 'vspec::lemma_enc_len_bound', 'frame::header::lemma_hdr_roundtrip',
@@ -24,7 +24,9 @@ LEMMAS = {
 PROPS = {
     'C01': dict(
         level='proof',
-        explain='Replay-loop arms proved equal to the replay rule replay_entry (O-C01-replay assertions, loop invariant I-C01-replay-items); '
+        explain='END TO END (O-C01-open-replay): open(dir) returns Ok(log) only with log.view() == open_spec(dir) = replay_log over the full blocks of the listed WAL files (ghost FS model), i.e. the replay, by the rule replay_entry, '
+                'of exactly the entries the reading rule rec_step delivers from block 0 on, damaged frames and undecodable entries skipped (loop invariant I-C01-log; Directory::open, RollingReader::open and read_record expose what the invariant needs). '
+                'Replay-loop arms proved equal to the replay rule replay_entry (O-C01-replay assertions, loop invariant I-C01-replay-items); '
                 'every mutator proved to write exactly the entry whose replay on the pre-state gives the post-state (O-C01-commute-*, O-C12-one); '
                 'entry codec proved inverse for all four kinds (lemma_parse_ser_entry, lemma_parse_ser_items); reader hands its exact cursor to the writer (O-C01-cursor).',
         kani_quick=[], kani_thorough=[],
@@ -91,7 +93,8 @@ PROPS = {
     ),
     'C08': dict(
         level='proof',
-        explain='Mechanism level: a frame is delivered only if its CRC matches the stored one at the parse cursor (O-C08-step vs frame_step), undecodable/over-long frames quarantine the block, '
+        explain='The state open returns is open_spec(dir): built ONLY from entries assembled out of CRC-valid frames (O-C01-open-replay over rec_step / frame_step). '
+                'Mechanism level: a frame is delivered only if its CRC matches the stored one at the parse cursor (O-C08-step vs frame_step), undecodable/over-long frames quarantine the block, '
                 'any bad frame abandons the entry being assembled (O-C12-deliver vs rec_step), entry and batch structure re-validated (O-de-spec vs parse_entry, O-C12-validate), '
                 'queue invariant (strictly increasing positions) preserved by every replay operation.',
         kani_quick=['K-hdr'], kani_thorough=[],
@@ -100,7 +103,8 @@ PROPS = {
     ),
     'C09': dict(
         level='proof',
-        explain='Mechanism level: on CRC mismatch the cursor advances by exactly 7+len and the block is kept (frame_step Corrupt arm, O-C08-step); '
+        explain='open reports Corruption ONLY where the replay rule does (O-C09-open-corruption: Err(Corruption) ==> open_spec(dir) is None), and otherwise returns the replay of every entry the reading rule delivers (O-C01-open-replay): a skipped frame costs exactly the entry it belongs to in replay_log. '
+                'Mechanism level: on CRC mismatch the cursor advances by exactly 7+len and the block is kept (frame_step Corrupt arm, O-C08-step); '
                 'replay tolerance: ack_position implements log_ack (O-C09-ack), gaps in positions accepted (O-C05-append), unknown DeleteQueue ignored (P-C01-replay-delete).',
         kani_quick=[], kani_thorough=[],
         trusted=[FS], not_decided=['history-level "every other retained record is recovered"'],
